@@ -118,7 +118,7 @@ def build(cfg, values=None):
                 S = series_of(p, model)
                 ops = E.donnell_ops('cpanel' if model == 'cpanel' else 'plate', r=p.r)
                 Fl = [[F[i, j] for j in range(6)] for i in range(6)]
-                H = symmetric_completion(PW.kG_state(ctx.atoms, S, ops, lambda ix, iy: Fl, c, ctx.gauss[nx], ctx.gauss[ny], NL=NL))
+                H = symmetric_completion(PW.kG_state(ctx.atoms, S, ops, lambda ix, iy: Fl, c, ctx.rule(nx), ctx.rule(ny), NL=NL))
             for k in range(size0):
                 if not (c[k] is c_before[k]):
                     obs.append(('caller-array-c[%d]-unchanged' % k, Sym.lift(1), Sym.lift(0)))
